@@ -218,6 +218,212 @@ func (f *ioFn) unsafeCasts() (pointees []types.Type, indexZero bool) {
 	return
 }
 
+// byteOrderCalls finds the calls of encoding/binary's fixed-width accessors
+// (UintW / PutUintW on littleEndian or bigEndian, also through a package-level
+// variable holding one) in f and the helpers it calls: the byte order's type
+// name, the width in bytes, whether the slice handed over is f's own first
+// parameter from index 0, and how many such calls there are. An accessor
+// called through the ByteOrder interface is reported as order "dynamic".
+func (f *ioFn) byteOrderCalls() (order string, width int, ownBuf bool, n int) {
+	ownBuf = true
+	f.inspectAll(func(g *ioFn, nd ast.Node) bool {
+		call, ok := nd.(*ast.CallExpr)
+		if !ok {
+			return true
+		}
+		sel, ok := ast.Unparen(call.Fun).(*ast.SelectorExpr)
+		if !ok {
+			return true
+		}
+		fn, ok := g.info.Uses[sel.Sel].(*types.Func)
+		if !ok || fn.Pkg() == nil || fn.Pkg().Path() != "encoding/binary" {
+			return true
+		}
+		w := map[string]int{"Uint16": 2, "Uint32": 4, "Uint64": 8, "PutUint16": 2, "PutUint32": 4, "PutUint64": 8}[fn.Name()]
+		if w == 0 {
+			return true
+		}
+		n++
+		width = w
+		order = "dynamic"
+		if t := g.info.TypeOf(sel.X); t != nil {
+			if nt, ok := t.(*types.Named); ok && (nt.Obj().Name() == "littleEndian" || nt.Obj().Name() == "bigEndian") {
+				order = nt.Obj().Name()
+			}
+		}
+		// the slice: f's first []byte parameter, whole or from index 0
+		if g != f || len(call.Args) == 0 {
+			ownBuf = false
+			return true
+		}
+		arg := ast.Unparen(call.Args[0])
+		if se, ok := arg.(*ast.SliceExpr); ok {
+			if se.Low != nil {
+				if k, isC := constInt(g.info, se.Low); !isC || k != 0 {
+					ownBuf = false
+				}
+			}
+			arg = ast.Unparen(se.X)
+		}
+		id, isId := arg.(*ast.Ident)
+		var first types.Object
+		if ps := g.fd.Type.Params; ps != nil && len(ps.List) > 0 && len(ps.List[0].Names) > 0 {
+			first = g.info.Defs[ps.List[0].Names[0]]
+		}
+		if !isId || first == nil || g.info.ObjectOf(id) != first {
+			ownBuf = false
+		}
+		return true
+	})
+	return
+}
+
+// isAliasOf: e is a local variable of f whose only definition is `x := <what>`
+// (what in canonical spelling, e.g. "er.Reader").
+func (f *ioFn) isAliasOf(e ast.Expr, what string) bool {
+	id, ok := ast.Unparen(e).(*ast.Ident)
+	if !ok {
+		return false
+	}
+	o := f.info.ObjectOf(id)
+	if o == nil {
+		return false
+	}
+	defs, good := 0, 0
+	ast.Inspect(f.fd.Body, func(n ast.Node) bool {
+		switch x := n.(type) {
+		case *ast.AssignStmt:
+			for i, l := range x.Lhs {
+				if lid, isId := ast.Unparen(l).(*ast.Ident); isId && f.info.ObjectOf(lid) == o {
+					defs++
+					if len(x.Lhs) == len(x.Rhs) && f.canon(x.Rhs[i]) == what {
+						good++
+					}
+				}
+			}
+		case *ast.UnaryExpr:
+			if x.Op == token.AND {
+				if lid, isId := ast.Unparen(x.X).(*ast.Ident); isId && f.info.ObjectOf(lid) == o {
+					defs += 2
+				}
+			}
+		}
+		return true
+	})
+	return defs == 1 && good == 1
+}
+
+// fillsByLoop: f fills its []byte parameter b from the stream with a loop
+//
+//	for n < len(b) { got, err := <stream>.Read(b[n:]); n += got; … }
+//
+// whose only exits besides the condition are returns and breaks under
+// `n >= len(b)` / `n == len(b)`. unsure: a loop of that kind is there but has
+// another way out, or the read does not start where the last one ended.
+func (f *ioFn) fillsByLoop(stream, dst string) (ok, unsure bool) {
+	ast.Inspect(f.fd.Body, func(nd ast.Node) bool {
+		loop, isFor := nd.(*ast.ForStmt)
+		if !isFor || loop.Cond == nil || ok {
+			return true
+		}
+		be, isB := ast.Unparen(loop.Cond).(*ast.BinaryExpr)
+		if !isB || be.Op != token.LSS || f.canon(be.Y) != "len("+dst+")" {
+			return true
+		}
+		nv, isId := ast.Unparen(be.X).(*ast.Ident)
+		if !isId {
+			return true
+		}
+		nobj := f.info.ObjectOf(nv)
+		isN := func(e ast.Expr) bool {
+			id, ok := ast.Unparen(e).(*ast.Ident)
+			return ok && f.info.ObjectOf(id) == nobj
+		}
+		var got types.Object
+		reads, adds, otherWrites := 0, 0, 0
+		badExit := false
+		var walk func(n ast.Node, underFull bool)
+		walk = func(n ast.Node, underFull bool) {
+			ast.Inspect(n, func(k ast.Node) bool {
+				switch x := k.(type) {
+				case *ast.FuncLit, *ast.ForStmt, *ast.RangeStmt, *ast.SwitchStmt, *ast.SelectStmt:
+					if k != n {
+						// a break in there leaves that statement, not this loop;
+						// what they contain is not understood either way
+						ast.Inspect(x, func(q ast.Node) bool {
+							if as, isAs := q.(*ast.AssignStmt); isAs {
+								for _, l := range as.Lhs {
+									if isN(l) {
+										otherWrites++
+									}
+								}
+							}
+							return true
+						})
+						return false
+					}
+				case *ast.IfStmt:
+					full := false
+					if c, isB := ast.Unparen(x.Cond).(*ast.BinaryExpr); isB && (c.Op == token.GEQ || c.Op == token.EQL) && isN(c.X) && f.canon(c.Y) == "len("+dst+")" {
+						full = true
+					}
+					if x.Init != nil {
+						walk(x.Init, underFull)
+					}
+					walk(x.Body, underFull || full)
+					if x.Else != nil {
+						walk(x.Else, underFull)
+					}
+					return false
+				case *ast.BranchStmt:
+					if x.Tok == token.BREAK && !underFull || x.Tok == token.GOTO || x.Label != nil {
+						badExit = true
+					}
+				case *ast.AssignStmt:
+					if len(x.Rhs) == 1 && len(x.Lhs) == 2 {
+						if call, isC := ast.Unparen(x.Rhs[0]).(*ast.CallExpr); isC && len(call.Args) == 1 {
+							if sel, isSel := ast.Unparen(call.Fun).(*ast.SelectorExpr); isSel && sel.Sel.Name == "Read" && (f.canon(sel.X) == stream || f.isAliasOf(sel.X, stream)) {
+								if se, isSl := ast.Unparen(call.Args[0]).(*ast.SliceExpr); isSl && f.canon(se.X) == dst && se.Low != nil && isN(se.Low) && se.High == nil {
+									if gid, isId := x.Lhs[0].(*ast.Ident); isId {
+										got = f.info.ObjectOf(gid)
+										reads++
+									}
+								} else {
+									badExit = true
+								}
+							}
+						}
+					}
+					if len(x.Lhs) == 1 && len(x.Rhs) == 1 && isN(x.Lhs[0]) {
+						rid, isId := ast.Unparen(x.Rhs[0]).(*ast.Ident)
+						if x.Tok == token.ADD_ASSIGN && isId && got != nil && f.info.ObjectOf(rid) == got {
+							adds++
+						} else {
+							otherWrites++
+						}
+					}
+				case *ast.IncDecStmt:
+					if isN(x.X) {
+						otherWrites++
+					}
+				}
+				return true
+			})
+		}
+		walk(loop.Body, false)
+		if reads == 0 {
+			return true
+		}
+		if reads == 1 && adds == 1 && otherWrites == 0 && !badExit {
+			ok = true
+		} else {
+			unsure = true
+		}
+		return true
+	})
+	return ok, unsure && !ok
+}
+
 func (f *ioFn) calls() []*ast.CallExpr {
 	var out []*ast.CallExpr
 	ast.Inspect(f.fd.Body, func(n ast.Node) bool {
@@ -263,6 +469,18 @@ func iohelpLayoutRules(c *core.Ctx, p *load.Prog, rWidth, rGUID, rBuild string) 
 		}
 		for _, f := range []*ioFn{rd, wr} {
 			n++
+			// the same layout through encoding/binary: LittleEndian.UintW(buf) /
+			// PutUintW(buf, v) check the slice themselves and move W/8 bytes,
+			// least significant first, on every platform
+			if ord, width, buf0, nCalls := f.byteOrderCalls(); nCalls > 0 {
+				if pts, _, _ := f.instCasts(); len(pts) > 0 || nCalls != 1 || !buf0 {
+					c.Undecide("iohelp.%s mixes encoding/binary calls with other accesses, or does not hand them its own slice from index 0", f.name)
+					continue
+				}
+				c.Check(rWidth, f.name+" bounds probe covers the width", f.pos(), width == w, fmt.Sprintf("encoding/binary moves %d bytes, the wire type %s is %d", width, stem, w))
+				c.Check(rWidth, f.name+" moves exactly "+gt, f.pos(), ord == "littleEndian" && width == w, fmt.Sprintf("encoding/binary.%s moving %d bytes; the wire type %s is %d bytes, least significant byte first", ord, width, stem, w))
+				continue
+			}
 			pr, unkP := f.instProbes()
 			pts, zero, unkC := f.instCasts()
 			if unkP || unkC {
@@ -991,7 +1209,12 @@ func iohelpStreamWidths(c *core.Ctx, p *load.Prog, rule string) {
 				ok = true
 			}
 		}
-		c.Check(rule, "ErrorReader.Read fills the whole destination (io.ReadFull)", f.pos(), ok, "ErrorReader.Read must be io.ReadFull(er.Reader, b): ReadString/ReadGUID/byte arrays call it directly and rely on it absorbing short reads")
+		loopOK, loopUnsure := f.fillsByLoop("er.Reader", "b")
+		if !ok && loopUnsure {
+			c.Undecide("iohelp.ErrorReader.Read fills its destination with a loop the rule cannot follow (another way out of the loop, the counter written elsewhere, or a read that does not start where the last one ended)")
+		} else {
+			c.Check(rule, "ErrorReader.Read fills the whole destination (io.ReadFull)", f.pos(), ok || loopOK, "ErrorReader.Read must be io.ReadFull(er.Reader, b), or a loop that reads into b[n:] until n reaches len(b): ReadString/ReadGUID/byte arrays call it directly and rely on it absorbing short reads")
+		}
 	}
 	c.Count("iohelp_stream_functions", n)
 	c.Floor("iohelp_stream_functions", 18)
@@ -2009,9 +2232,12 @@ func analyseLatch(f *ioFn, stream, latch string) latchFacts {
 		}
 		touches := strings.HasPrefix(f.canon(call.Fun), stream+".")
 		for _, a := range call.Args {
-			if f.canon(a) == stream {
+			if f.canon(a) == stream || f.isAliasOf(a, stream) {
 				touches = true
 			}
+		}
+		if sel, isSel := ast.Unparen(call.Fun).(*ast.SelectorExpr); isSel && f.isAliasOf(sel.X, stream) {
+			touches = true
 		}
 		if !touches || len(as.Lhs) < 1 {
 			return true
